@@ -86,7 +86,7 @@ def script_features(scripts):
     return f
 
 
-def run_one(case, n, pseed, logdir, fault=None, parent_delay_us=0, barrier_ms=200):
+def run_one(case, n, pseed, logdir, fault=None, parent_delay_us=0, barrier_ms=1500):
     """One traced parallel evaluation. Returns dict(outcome, value|exc, analysis, info)."""
     from vlib import c16_trace as T, c16_checkers as C
     logpath = os.path.join(logdir, 'events.log')
@@ -140,6 +140,7 @@ def batch(job, res):
     from vlib import tolerance
     logdir = tempfile.mkdtemp(prefix='c16-', dir='/dev/shm' if os.path.isdir('/dev/shm') else None)
     progress = job.get('progress')
+    last_run_s = 0.
     try:
         for spec in job['cases']:
             if time.time() > job['deadline']:
@@ -170,13 +171,15 @@ def batch(job, res):
             example = None
             for n in spec.get('ns') or job['ns']:
                 for pseed in spec.get('pseeds') or job['pseeds']:
-                    if time.time() > job['deadline']:
+                    if time.time() + 1.2 * last_run_s > job['deadline']:
                         res.count('runs_skipped_deadline')
                         continue
                     if progress:
                         with open(progress, 'w') as f:
                             json.dump(dict(spec=spec, n=n, pseed=pseed), f)
+                    t_run = time.time()
                     r = run_one(case, n, pseed, logdir)
+                    last_run_s = time.time() - t_run
                     an, info = r['analysis'], r['info']
                     runcase = dict(spec={k: v for k, v in spec.items() if k not in ('ns', 'pseeds')}, n=n, pseed=pseed)
                     res.count('evaluations')
@@ -254,7 +257,7 @@ def fault_run(job):
             return dict(status='discarded', why='build:' + type(e).__name__)
         if refexc is not None:
             return dict(status='discarded', why='serial:' + type(refexc).__name__)
-        r = run_one(case, job['n'], job['pseed'], logdir, fault=job['fault'], parent_delay_us=job.get('parent_delay_us', 3000), barrier_ms=1000)
+        r = run_one(case, job['n'], job['pseed'], logdir, fault=job['fault'], parent_delay_us=job.get('parent_delay_us', 3000), barrier_ms=2000)
         an = r['analysis']
         out = dict(status='done', outcome=r['outcome'], injected=bool(an['faults']), faults=an['faults'], stats=an['stats'],
                    problems=[p for p in an['problems'] if p[0] != 'join'], claim_sequence=an['claim_sequence'], unreaped=len(r['info']['unreaped']))
